@@ -130,6 +130,7 @@ func resolvePermit(v ssa.Value, fn *ssa.Function, pf map[*ssa.Function]int, b tr
 }
 
 func c05(c *Ctx) {
+	defer c.queueKeepsWhatItIsGiven("R05.6")
 	P, R := c.P, c.R
 	R.Explain("R05.1", "T-CONSTARG: from handleFetch/handleStore/handleSearch (also via handleUID) every call that reaches the permitExpunge parameter of a flush-like function (derived: popResponders and every wrapper forwarding a bool parameter into it) passes the constant false, context-sensitively through wrapper parameters; and every flush-like call in a static-call ancestor of those handlers that shares a path with the dispatch is false too (the trailing flush of handleSelectedCommand).")
 	R.Explain("R05.2", "popResponders evaluated with permitExpunge=false: every append to the returned slice is dominated by the not-*expunge edge of a type test on the appended element; appends under the *targetedExists edge are dominated by the false edge of the skip-set Contains test; the *expunge edge adds the id to the skip set and appends to the remainder that is stored back to State.res.")
@@ -1239,4 +1240,104 @@ func (c *Ctx) dominatedByIdleNonNil(f *ssa.Function, blk *ssa.BasicBlock, idleFl
 		}
 	}
 	return false
+}
+
+// queueKeepsWhatItIsGiven (R05.6): every responder handed to the queue is in the queue.
+func (c *Ctx) queueKeepsWhatItIsGiven(rule string) {
+	P, R := c.P, c.R
+	R.Explain(rule, "every removal is announced: the functions of internal/state that put their Responder parameter into State.res (queueResponder) do so for all of it on every path - either one append of the whole parameter that every return passes, or a loop over the parameter every iteration of which appends the element (no `continue` past the append).  A queue that drops a responder it considers redundant - a second expunge of a message whose first expunge is still held back, with the re-adding exists in between - loses an announcement for good: the observer keeps a message that no longer exists.")
+	resFld := c.fieldOf("internal/state", "State", "res")
+	isResponders := func(t types.Type) bool {
+		if sl, ok := t.Underlying().(*types.Slice); ok {
+			t = sl.Elem()
+		}
+		return engine.IsNamed(t, "internal/state", "Responder")
+	}
+	n := 0
+	for _, f := range c.funcsInPkg("internal/state") {
+		if f.Parent() != nil {
+			continue
+		}
+		var params []*ssa.Parameter
+		for _, p := range f.Params {
+			if isResponders(p.Type()) {
+				params = append(params, p)
+			}
+		}
+		if len(params) == 0 {
+			continue
+		}
+		for _, par := range params {
+			whole := map[ssa.Instruction]bool{}
+			elem := map[ssa.Instruction]bool{}
+			for _, b := range f.Blocks {
+				for _, in := range b.Instrs {
+					st, ok := in.(*ssa.Store)
+					if !ok {
+						continue
+					}
+					fa, ok := st.Addr.(*ssa.FieldAddr)
+					if !ok || fieldOfAddr(fa) != resFld {
+						continue
+					}
+					engine.Backward(st.Val, engine.FlowOpts{AppendElems: true, Loads: true}, func(x ssa.Value) bool {
+						if x == ssa.Value(par) {
+							whole[st] = true
+							return false
+						}
+						if u, ok := x.(*ssa.UnOp); ok && u.Op == token.MUL {
+							if ia, ok := u.X.(*ssa.IndexAddr); ok && engine.AnyBackward(ia.X, engine.FlowOpts{Loads: true}, func(y ssa.Value) bool { return y == ssa.Value(par) }) {
+								elem[st] = true
+								return false
+							}
+						}
+						return true
+					})
+				}
+			}
+			if len(whole) == 0 && len(elem) == 0 {
+				continue
+			}
+			n++
+			bad := ""
+			if len(whole) > 0 {
+				for _, ret := range engine.Returns(f) {
+					if lr := engine.LastResult(ret); lr != nil && lr.Type().String() == "error" && !engine.IsNilConst(lr) {
+						continue
+					}
+					if engine.ReachesAvoiding(f, ret, whole, nil) {
+						bad = "a return (" + P.Pos(ret.Pos()) + ") is reached without the append of the parameter"
+					}
+				}
+			} else {
+				loops := engine.RangeLoopsOver(f, func(sv ssa.Value) bool {
+					return engine.AnyBackward(sv, engine.FlowOpts{Loads: true}, func(y ssa.Value) bool { return y == ssa.Value(par) })
+				})
+				if len(loops) == 0 {
+					bad = "elements of the parameter are appended outside a loop over it"
+				}
+				for _, h := range loops {
+					body := engine.LoopBody(h)
+					for _, s := range h.Succs {
+						if !body[s] || s == h {
+							continue
+						}
+						if engine.ReachesAvoidingFrom(s, 0, h.Instrs[0], elem, nil) {
+							bad = "an iteration of the loop over the parameter can reach the next one without appending the element (" + P.Pos(firstPosOf(h)) + ")"
+						}
+					}
+					for _, ret := range engine.Returns(f) {
+						if lr := engine.LastResult(ret); lr != nil && lr.Type().String() == "error" && !engine.IsNilConst(lr) {
+							continue
+						}
+						if engine.ReachesAvoiding(f, ret, map[ssa.Instruction]bool{h.Instrs[0]: true}, nil) {
+							bad = "a return (" + P.Pos(ret.Pos()) + ") is reached without running the loop over the parameter"
+						}
+					}
+				}
+			}
+			R.Check(bad == "", rule, c.name(f)+"|queues all of "+par.Name(), P.Pos(f.Pos()), "every responder handed in is appended to State.res", "State.res does not receive every responder the function is given: "+bad+" - a dropped responder is an update (an EXPUNGE, an EXISTS, a FETCH) the session is never told about")
+		}
+	}
+	R.Min(rule, "functions that queue their Responder parameter", n, 1)
 }
